@@ -20,18 +20,21 @@ type profT struct {
 	AllBytes   bool `json:"all_byte_positions"`
 	ItemBatch  int  `json:"default_item_batch"`
 	ItemsFree  bool `json:"all_item_batch_sizes"`
+	// ext_init: the announced root carries the witness of header P (meaningful with StateRootInHeader off)
+	RootWitness bool `json:"witnessed_root,omitempty"`
 }
 
 type statsT struct {
-	states, transitions, jobs, completed, merged, probes, rejected, restarts, crashes, jumps, forks, violations, outdated, leaked vk.Counter
-	stages, orders, crashStates                                                                                                   *vk.Set
-	mu                                                                                                                            sync.Mutex
-	finals                                                                                                                        map[string]map[string]int
-	run                                                                                                                           *vk.Run
+	states, transitions, jobs, completed, merged, probes, rejected, restarts, crashes, jumps, forks, violations, outdated, leaked, initProbes, initRefused, initEvents vk.Counter
+	stages, orders, crashStates                                                                                                                                        *vk.Set
+	initCtx                                                                                                                                                            *ctxSet
+	mu                                                                                                                                                                 sync.Mutex
+	finals                                                                                                                                                             map[string]map[string]int
+	run                                                                                                                                                                *vk.Run
 }
 
 func newStats(r *vk.Run) *statsT {
-	return &statsT{stages: vk.NewSet(), orders: vk.NewSet(), crashStates: vk.NewSet(), finals: map[string]map[string]int{}, run: r}
+	return &statsT{stages: vk.NewSet(), orders: vk.NewSet(), crashStates: vk.NewSet(), initCtx: &ctxSet{m: map[string]int{}}, finals: map[string]map[string]int{}, run: r}
 }
 
 func (s *statsT) outcome(c string) {
@@ -266,7 +269,7 @@ func (x *explorer) report(c *confT, r *runner, v *viol) {
 		tr += "|" + r.tr[n-1].String()
 	}
 	rec := caseRec{Fam: c.src.fam, Names: c.src.names, HInit: c.HInit, P: c.P, Trust: c.Trust, Mode: c.Mode, Order: c.Order, Prof: c.prof, Events: r.tr, Trace: tr, Oracle: v.Oracle, What: v.What, Diff: v.Diff}
-	key := fmt.Sprintf("%s:%s:P%d/T%d/%s/%s:%s", v.Oracle, c.src.id, c.P, c.Trust, c.Mode, c.Order, shortKey(tr))
+	key := fmt.Sprintf("%s:%s:P%d/T%d/%s/%s:%s", v.Oracle, c.src.id, c.P, c.Trust, c.modeName(), c.Order, shortKey(tr))
 	x.r.Violation(key, rec)
 }
 
